@@ -6,9 +6,21 @@
    every order.  Texts are sequences of one-character strings.            *)
 EXTENDS Integers, Sequences, FiniteSets, TLC, Json, SequencesExt
 
-CONSTANT MaxCore
+CONSTANTS MaxCore, PairSeps   \* PairSeps: how many of the separators are used between the elements of a pair from the full pool
 
 ValidEl == <<
+  <<"\"", "a", "\\", "\"", "\"">>,
+  <<"\"", "\\", "\"", "\"">>,
+  <<"\"", "\\", "\"", "\\", "\"", "\"">>,
+  <<"\"", "\\", "\"", "a", "\"">>,
+  <<"\"", "a", "\\", "\\", "\"">>,
+  <<"\"", "/", "/", "\"">>,
+  <<"\"", "/", "*", "\"">>,
+  <<"/", "a", "\\", "/", "\\", "/", "/">>,
+  <<"/", "\\", "/", "a", "/">>,
+  <<"/", "\"", "/">>,
+  <<"/", "a", " ", "b", "/">>,
+  <<"\"", "'", "\"">>,
   <<"=">>,
   <<";">>,
   <<"|">>,
@@ -106,10 +118,12 @@ Seps == <<
 Rg(s) == { s[i] : i \in 1..Len(s) }
 Els == Rg(ValidEl) \cup Rg(NearEl)
 Sp == Rg(Seps)
-One(E) == { e \o s : e \in E, s \in Sp }
-RECURSIVE UpTo(_, _)
-UpTo(E, n) == IF n = 0 THEN {<<>>} ELSE LET r == UpTo(E, n - 1) IN r \cup { a \o b : a \in One(E), b \in r }
-Texts == UpTo(Els, 2) \cup UpTo(Rg(CoreEl), MaxCore)
+OneS(E, S) == { e \o s : e \in E, s \in S }
+One(E) == OneS(E, Sp)
+RECURSIVE UpToS(_, _, _)
+UpToS(E, n, S) == IF n = 0 THEN {<<>>} ELSE LET r == UpToS(E, n - 1, S) IN r \cup { a \o b : a \in OneS(E, S), b \in r }
+UpTo(E, n) == UpToS(E, n, Sp)
+Texts == UpTo(Els, 1) \cup UpToS(Els, 2, { Seps[i] : i \in 1..PairSeps }) \cup UpTo(Rg(CoreEl), MaxCore)
 
 ASSUME /\ ndJsonSerialize("gen_texts.ndjson", SetToSeq({ [text |-> t] : t \in Texts }))
        /\ PrintT(<<"GENERATED", Cardinality(Texts)>>)
